@@ -155,7 +155,7 @@ func Parse(ctx context.Context, args []string, stdin io.Reader, stdout, stderr i
 
 			wareID, err := api.ParseWareID(args.WareID)
 			if err != nil {
-				return err
+				return Recategorize(rio.ErrUsage, err)
 			}
 			unpackFunc, err := demuxUnpackTool(string(wareID.Type))
 			if err != nil {
@@ -250,7 +250,7 @@ func Parse(ctx context.Context, args []string, stdin io.Reader, stdout, stderr i
 
 			wareID, err := api.ParseWareID(args.WareID)
 			if err != nil {
-				return err
+				return Recategorize(rio.ErrUsage, err)
 			}
 			mirrorFunc, err := demuxMirrorTool(string(wareID.Type))
 			if err != nil {
